@@ -281,6 +281,37 @@ def _is_public(name: str) -> bool:
     return not name.startswith("_") or (name.startswith("__") and name.endswith("__"))
 
 
+def _declaring_classes(prog, attr):
+    """Classes that declare an instance attribute of that name: in __slots__, by a class-level annotation, or by a
+    `self.<attr> = ...` store in one of their methods."""
+    out = []
+    for ci in prog.classes.values():
+        declared = False
+        sl = ci.attrs.get("__slots__")
+        if isinstance(sl, (ast.List, ast.Tuple)) and any(isinstance(x, ast.Constant) and x.value == attr for x in sl.elts):
+            declared = True
+        node = getattr(ci, "node", None)
+        if not declared and node is not None:
+            for st in node.body:
+                if isinstance(st, ast.AnnAssign) and isinstance(st.target, ast.Name) and st.target.id == attr:
+                    declared = True
+        if not declared:
+            for f in ci.methods.values():
+                if f.node is None or not hasattr(f.node, "args") or not f.node.args.args:
+                    continue
+                me = f.node.args.args[0].arg
+                for n in ast.walk(f.node):
+                    if isinstance(n, ast.Attribute) and isinstance(n.ctx, ast.Store) and n.attr == attr and \
+                            isinstance(n.value, ast.Name) and n.value.id == me:
+                        declared = True
+                        break
+                if declared:
+                    break
+        if declared:
+            out.append(ci)
+    return out
+
+
 def check_ownership(res, rule: str, writes: List[Write], state: str, owners: Dict[str, Set[str]],
                     cg: Optional[CallGraph] = None, case_prefix=""):
     """Who-may-write: every write of `state` is in an owner function with a whitelisted
@@ -313,6 +344,16 @@ def check_ownership(res, rule: str, writes: List[Write], state: str, owners: Dic
             return False
         found = [w for w in found if not (w.base_src in ("self", "cls") and w.fi is not None and w.fi.cls is not None
                                           and not related(w.fi.cls.name))]
+        # a store through another name (`unit.<state> = ...`): when several classes declare an attribute of that
+        # name, the store belongs to the declaring class defined in the module of the store, if there is exactly one
+        decl = _declaring_classes(prog, state)
+        if len(decl) > 1:
+            def foreign(w):
+                if w.base_src in ("self", "cls") or w.fi is None:
+                    return False
+                here = [c for c in decl if c.module is w.fi.module]
+                return len(here) == 1 and not related(here[0].name)
+            found = [w for w in found if not foreign(w)]
     for w in found:
         q = w.func
         ok = False
